@@ -162,4 +162,19 @@ Metamorphic == IsPoint =>
        /\ Energy(Cst, s, pst.T) = RMul(RPow(a, -(2 * s - 1)), e)
        /\ Crv = ReverseCoeffs(C, s, Pr0.T)
        /\ Energy(Crv, s, prv.T) = e
+       \* the energy gradients transform accordingly
+       /\ LET g == TLCEval(EnergyGrad(Pr0, C))
+              gtr == TLCEval(EnergyGrad(Translate(Pr0, v), Ctr))
+              gsc == TLCEval(EnergyGrad(ScaleSpace(Pr0, a), Csc))
+              gst == TLCEval(EnergyGrad(pst, Cst))
+              grv == TLCEval(EnergyGrad(prv, Crv))
+              SM(f, M) == [i \in 1..Len(M) |-> VScale(f, M[i])]
+          IN /\ gtr = g
+             /\ gsc.points = SM(a, g.points) /\ gsc.bs = SM(a, g.bs) /\ gsc.be = SM(a, g.be) /\ gsc.times = VScale(RSq(a), g.times)
+             /\ gst.points = SM(RPow(a, -(2 * s - 1)), g.points) /\ gst.times = VScale(RPow(a, -(2 * s)), g.times)
+             /\ gst.bs = [d \in 1..(s - 1) |-> VScale(RPow(a, d - (2 * s - 1)), g.bs[d])]
+             /\ gst.be = [d \in 1..(s - 1) |-> VScale(RPow(a, d - (2 * s - 1)), g.be[d])]
+             /\ grv.points = Rev(g.points) /\ grv.times = Rev(g.times)
+             /\ grv.bs = [d \in 1..(s - 1) |-> VScale(RPow("-1", d), g.be[d])]
+             /\ grv.be = [d \in 1..(s - 1) |-> VScale(RPow("-1", d), g.bs[d])]
 =============================================================================
